@@ -116,9 +116,6 @@ void log_message(struct log_type *type, enum log_severity sev, const char *forma
         __CPROVER_assume(0);
     }
 }
-void *xmalloc(unsigned int size) { void *p = calloc(1, size); __CPROVER_assume(p != NULL); return p; }
-void *xrealloc(void *ptr, unsigned int size) { void *p = realloc(ptr, size); __CPROVER_assume(p != NULL); return p; }
-void reg_exit_func(exit_func_t handler) { (void)handler; }
 
 void h_module_graph(void)
 {
